@@ -236,7 +236,15 @@ func (w *vpC05World) commitNext(cs *State) {
 	}
 	id := types.BlockID{Hash: block.Hash(), PartSetHeader: parts.Header()}
 	cs.ProposalBlock, cs.ProposalBlockParts = block, parts
-	cs.Round, cs.CommitRound, cs.Step = 0, 0, cstypes.RoundStepCommit
+	// the decision of round 0 may complete (a late precommit) after the node has moved on to round 1
+	nodeRound := int32(0)
+	if h == 1 {
+		nodeRound = int32(vp.Choice("node-round-when-the-decision-completes", 2))
+		if nodeRound > 0 {
+			cs.Votes.SetRound(nodeRound + 1) // as enterNewRound does
+		}
+	}
+	cs.Round, cs.CommitRound, cs.Step = nodeRound, 0, cstypes.RoundStepCommit
 	vote := &types.Vote{Type: tmproto.PrecommitType, Height: h, Round: 0, BlockID: id, Timestamp: block.Time.Add(1e9),
 		ValidatorAddress: w.key.PubKey().Address(), ValidatorIndex: 0}
 	sig, err := w.key.Sign(types.VoteSignBytes(vpC05Chain, vote.ToProto()))
@@ -249,6 +257,8 @@ func (w *vpC05World) commitNext(cs *State) {
 	}
 	cs.finalizeCommit(h)
 	vp.Assert(cs.Height == h+1, "C05.pipeline.finalize-commit-moves-to-the-next-height")
+	maj, ok := cs.LastCommit.TwoThirdsMajority()
+	vp.Assert(ok && maj.Equals(id) && cs.LastCommit.GetRound() == 0, "C03.next-height.starts-with-the-precommits-of-the-round-that-decided(so-its-proposer-can-propose)")
 }
 
 // C05-H1/H2: n blocks are committed through the real finalizeCommit; up to `crashes` crashes strike at
